@@ -38,7 +38,7 @@ def run():
     try:
         specs = tp.svob_specs(t) + inst.specs
         names = [s["name"] for s in specs]
-        res, logp, wall, build_failed = e1.run_kani(ov, "toktrie", names, jobs=14, harness_timeout_s=600 if t == "quick" else 1800, logname="c16")
+        res, logp, wall, build_failed = e1.run_kani(ov, "toktrie", names, jobs=14, harness_timeout_s=900 if t == "quick" else 2400, logname="c16")
         if build_failed:
             import subprocess
             tail = subprocess.run("grep -v '^warning' %s | grep -A8 '^error' | head -60" % logp, shell=True, capture_output=True, text=True).stdout
